@@ -224,6 +224,10 @@ def check_psd(case, ctx):
     if route == 'method':
         r = np.asarray(ctx.call(getattr, p, 'r'))
         U.check_close(r, np.hypot(fx, fy), 1e-12, 'Interferogram.psd:r', 'radial frequency of the PSD object')
+        # the spacing the PSD object reports is the spacing of its own x frequency axis
+        pdx = p.dx
+        ctx.require(np.ndim(pdx) == 0 and nx > 1 and abs(float(pdx) - dfx) <= 1e-12 * dfx or nx == 1, 'Interferogram.psd:dx',
+                    'PSD object reports dx=%r, its x frequency axis is spaced by %r (shape %s)' % (pdx, dfx, shape))
 
 
 # ---- clause 2: a sinusoid is found where the axes say it is -----------------------------------------
